@@ -133,6 +133,39 @@ def compare(c, a, b):
     return a == b
 
 
+def in_tube(trbl):
+    return sum(1 for x in trbl if x in (1, 2, 4, 6, 7)) >= 2
+
+
+def sayama_default(loop, c, trbl):
+    """Sayama's default rules for combinations outside the table, written as a decision table
+    (independent of the sequential-override code in the library and of the Lean model)."""
+    if c == 8:
+        return 0                                   # 8 always becomes 0
+    if 8 in trbl:                                  # the 8-neighbour rules
+        if c in (0, 1):
+            return 8 if any(x in trbl for x in (2, 3, 4, 5, 6, 7)) else c
+        if c in (2, 3, 5):
+            return 0
+        return 1                                   # 4, 6, 7
+    if loop == "sdsr":                             # the tube rules
+        tube = in_tube(trbl)
+        if c == 0:
+            return 1 if tube and 1 in trbl else 0
+        if c == 1 and tube:
+            for x in (7, 6, 4):
+                if x in trbl:
+                    return x
+        if c in (4, 6, 7) and tube and 0 in trbl:
+            return 0
+        if c == 2:
+            if 3 in trbl:
+                return 1
+            if 2 in trbl:
+                return 2
+    return 0 if c == 0 else 8                      # undefined 0 stays 0, undefined 1-7 become 8
+
+
 def oracle(c):
     import cellpylib as cpl
     if c["kind"] == "batch":
@@ -156,6 +189,11 @@ def oracle(c):
                     return "%s not total over 0..8: (%d,%d,%d,%d,%d) -> %s" % (c["loop"], c["c"], t, r, b, l, v)
                 if c["c"] == 8 and v != "0":
                     return "%s: state 8 must always become 0, got %s at %s" % (c["loop"], v, (t, r, b, l))
+                if (c["c"], t, r, b, l) not in obj.rule_table:
+                    want = sayama_default(c["loop"], c["c"], (t, r, b, l))
+                    if v != str(want):
+                        return "%s default rule: (%d,%d,%d,%d,%d) -> %s, Sayama's rules give %d" % (
+                            c["loop"], c["c"], t, r, b, l, v, want)
         return None
     if c["kind"] == "call":
         obj = loop_obj(c["loop"])
